@@ -367,8 +367,11 @@ def run_case(case):
         specs = [case["pool"][i] for i in call["tapes"]]
         counters["calls"] += 1
         counters["tapes"] += len(specs)
-        counters["dups_in_batch"] += len(call["tapes"]) - len(set(call["tapes"]))
-        distinct_in_batch = len(set(call["tapes"]))
+        # two pool entries can be the same circuit (the "dup" mutator): duplicates are counted by content
+        keys = [json.dumps([s_.get("ops"), s_.get("mps"), s_.get("shots"), s_.get("trainable")], sort_keys=True)
+                for s_ in specs]
+        counters["dups_in_batch"] += len(keys) - len(set(keys))
+        distinct_in_batch = len(set(keys))
         sig = {"store": st["kind"], "entry": case["entry"]}
         try:
             if case["entry"] == "qnode":
@@ -397,7 +400,7 @@ def run_case(case):
                 continue
             sig2 = dict(sig, exc=type(e).__name__, capacity_pressure=bool(pressure_own or pressure_user),
                         cachesize_lt_distinct=bool(st["kind"] == "true" and st["cachesize"] < distinct_in_batch),
-                        has_dups=len(call["tapes"]) != distinct_in_batch)
+                        has_dups=len(keys) != distinct_in_batch)
             violations.append({"klass": "exception_with_cache", "sig": sig2,
                                "detail": {"call": ci, "error": repr(e)[:200], "store": st,
                                           "batch": call["tapes"]}})
